@@ -273,6 +273,37 @@ func H_Declarations() {
 	zv.Reach("done")
 }
 
+// H_DictNullValues: a key that holds 空 is a key like any other: 移除 removes
+// it, the number of entries shrinks, writing it again appends it at the end.
+func H_DictNullValues() {
+	x := zv.Float64("x")
+	setup := []string{
+		"令D = 【子 = 空，丑 = X，寅 = 3】",
+		"令D = 【子 = 1，丑 = X，寅 = 3】\nD#“子” = 空",
+		"令D = 【子 = 1，丑 = X，寅 = 3】\n以D（写入：“子”、空）",
+		"令D = 【丑 = X，子 = 空，寅 = 3】",
+	}[zv.Choose(4)]
+	probe := zv.Choose(3)
+	src := "输入X\n" + setup + "\n以D（移除：“子”）\n"
+	switch probe {
+	case 0:
+		src += "输出 D之数目"
+	case 1:
+		src += "令K = D之所有索引\n输出 {K#1 为 “丑”} 且 {K#2 为 “寅”}"
+	default:
+		src += "以D（写入：“子”、5）\n令K = D之所有索引\n输出 K#3 为 “子”"
+	}
+	res, err, p := run(src, r.ElementMap{"X": value.NewNumber(x)})
+	zv.Assert(p == nil && err == nil, "null values: runs\n"+src)
+	if probe == 0 {
+		zv.Assert(isNum(res, 2), "移除 of a key that holds 空 removes the entry")
+	} else {
+		b, ok := res.(*value.Bool)
+		zv.Assert(ok && b.GetValue(), "after 移除 of a key that holds 空 the key order is that of the remaining keys (a re-inserted key goes to the end)\n"+src)
+	}
+	zv.Reach("done")
+}
+
 // ---------------------------------------------------------------- dictionaries
 
 var keyPool = []string{"甲", "乙", "丙"}
